@@ -154,7 +154,10 @@ def reader_case(case):
         if pos + need > end:
             return [('reader-overask:' + name, '{}: with {} bytes buffered the reader is asked to wait for {} more, '
                      'but the record in progress has only {} more'.format(name, have, need, end - pos))]
-    want = [canon.generic(cls.parse_exact_size(r)) for r in records]
+    try:
+        want = [canon.generic(cls.parse_exact_size(r)) for r in records]
+    except Exception as exc:  # pylint: disable=broad-except
+        return [('record-rejected:' + name, '{}: a complete record of the stream is rejected on its own: {}'.format(name, err_line(exc)))]
     got = [canon.generic(o) for o in out]
     if got != want:
         return [('reader-reassembly:' + name, '{}: reader returned {} objects, expected {}; first difference at {}'.format(
